@@ -6,6 +6,7 @@ import numpy as np
 import xarray as xr
 from hypothesis import strategies as st
 
+from vlib.runner import Violation
 from vlib.util import Failed, call, relerr
 
 ID = "C10"
@@ -139,7 +140,9 @@ def run_case(desc, ctx):
             return min(kw["n_pca_modes"])
         if kw.get("use_pca") and isinstance(kw.get("n_pca_modes"), float):
             # the retained count is data dependent: read it off a probe fit of the general model
-            probe = xe.cross.CPCCA(n_modes=1, alpha=1.0, **kw, **common).fit(X, Y, "time")
+            probe = call(ctx, "fit_raises", lambda: xe.cross.CPCCA(n_modes=1, alpha=1.0, **kw, **common).fit(X, Y, "time"), disc=dict(disc, which="probe"))
+            if isinstance(probe, Failed):
+                raise Violation("C10", "fit_raises", "probe fit raised", dict(disc, which="probe"))
             return min(int(probe.pca1.V.sizes["mode"]), int(probe.pca2.V.sizes["mode"]))
         return min(min(ps), n - 1)
 
@@ -159,7 +162,9 @@ def run_case(desc, ctx):
         sb, cb, scb = cross_parts(b)
         pa, psa = pub_cross(a, "xy")
         pb, psb = pub_cross(b, "xy")
-        full = xe.cross.CPCCA(n_modes=rank_for(desc["p"], kw), alpha=alpha, **kw, **common).fit(X, Y, "time").data["singular_values"].values
+        full = call(ctx, "fit_raises", lambda: xe.cross.CPCCA(n_modes=rank_for(desc["p"], kw), alpha=alpha, **kw, **common).fit(X, Y, "time").data["singular_values"].values, disc=dict(disc, which="all_modes"))
+        if isinstance(full, Failed):
+            return
         compare(ctx, disc, "named_vs_cpcca", sa, sb, ca + pa, cb + pb, sca + psa, scb + psb, 1e-9, extra_s=full)
         return
 
@@ -224,7 +229,9 @@ def run_case(desc, ctx):
         pb, psb = pub_cross(b, "xy")
         fullm = (xe.cross.MCA(n_modes=rank_for(desc["p"], kw), **kw, **common) if pair == "ComplexMCA=MCA"
                  else xe.cross.CPCCA(n_modes=rank_for(desc["p"], kw), alpha=al, **kw, **common))
-        full = fullm.fit(X, Y, "time").data["singular_values"].values
+        full = call(ctx, "fit_raises", lambda: fullm.fit(X, Y, "time").data["singular_values"].values, disc=dict(disc, which="all_modes"))
+        if isinstance(full, Failed):
+            return
         compare(ctx, disc, "complex_vs_real_cross", sa, sb, ca + pa, cb + pb, sca + psa, scb + psb, tol, extra_s=full)
         return
 
@@ -286,7 +293,9 @@ def run_case(desc, ctx):
         for Z, a_ in zip((X, Y), al):
             s = np.linalg.svd(Z.values - Z.values.mean(0), compute_uv=False)
             cond = max(cond, (s[0] / s[-1]) ** (1 - a_))
-        full = Cls(n_modes=min(min(desc["p"]), n - 1), alpha=al, use_pca=False, **common).fit(X, Y, "time").data["singular_values"].values
+        full = call(ctx, "fit_raises", lambda: Cls(n_modes=min(min(desc["p"]), n - 1), alpha=al, use_pca=False, **common).fit(X, Y, "time").data["singular_values"].values, disc=dict(disc, which="all_modes"))
+        if isinstance(full, Failed):
+            return
         compare(ctx, disc, "pca_all_vs_no_pca", a.data["singular_values"].values, b.data["singular_values"].values, pa, pb, psa, psb, 1e-9 * cond, extra_s=full)
         return
 
